@@ -22,111 +22,156 @@ theorem addWakeup_isSome (w : Wakeups) (c c' : Comp) (t : SimTime)
   · exact h
 
 /-- the part of the invariant that holds for the repaired AND for the original loop. -/
-structure LoopBase (s : LoopSt) : Prop where
+structure LoopBase (s : MLoopSt) : Prop where
   /-- `self.wakeups` is a dict -/
   uniq : UniqueKeys s.wake
   /-- the chosen components keep an entry until they are served -/
   served : ∀ c ∈ s.pc.chosen, (alookup s.wake c).isSome = true
   /-- `new` completes only after a `set()` that has not been cleared -/
   observed : s.pc.isRacing = true → s.flagTaskDone = true → s.flag = true
+  /-- while the sleep races against the event there is a wakeup -/
+  racingWork : s.pc.isRacing = true → s.wake ≠ []
 
 theorem LoopBase.init : LoopBase {} :=
-  ⟨by simp [UniqueKeys], by simp [LoopPc.chosen], by simp [LoopPc.isRacing]⟩
+  ⟨by simp [UniqueKeys], by simp [MLoopPc.chosen], by simp [MLoopPc.isRacing],
+    by simp [MLoopPc.isRacing]⟩
 
-theorem LoopBase.choose {s : LoopSt} (h : LoopBase s) : LoopBase s.choose := by
-  unfold LoopSt.choose
+theorem firstWakeups_some_of_ne_nil (w : Wakeups) (h : w ≠ []) :
+    ∃ cs t, firstWakeups w = (cs, some t) := by
+  cases hf : firstWakeups w with
+  | mk cs o =>
+    cases o with
+    | some t => exact ⟨cs, t, rfl⟩
+    | none =>
+      have : (firstWakeups w).2 = none := by rw [hf]
+      exact absurd ((firstWakeups_none w).mp this) h
+
+theorem ne_nil_of_firstWakeups_some {w : Wakeups} {cs : List Comp} {t : SimTime}
+    (hf : firstWakeups w = (cs, some t)) : w ≠ [] := by
+  intro he
+  have := (firstWakeups_none w).mpr he
+  rw [hf] at this
+  simp at this
+
+theorem serveFirst_of_ne_nil (s : MLoopSt) (h : s.wake ≠ []) :
+    ∃ cs w, firstWakeups s.wake = (cs, some w) ∧
+      s.serveFirst = { s with wake := delWakeups s.wake cs, pc := .ticking cs w } := by
+  obtain ⟨cs, w, hf⟩ := firstWakeups_some_of_ne_nil s.wake h
+  exact ⟨cs, w, hf, by simp [MLoopSt.serveFirst, hf]⟩
+
+theorem serveFirst_pc_not_racing (s : MLoopSt) :
+    s.serveFirst.pc.isRacing = false ∧ s.serveFirst.pc.chosen = [] := by
+  unfold MLoopSt.serveFirst
+  split <;> simp [MLoopPc.isRacing, MLoopPc.chosen]
+
+theorem LoopBase.serveFirst {s : MLoopSt} (h : LoopBase s) : LoopBase s.serveFirst := by
+  obtain ⟨h1, h2⟩ := serveFirst_pc_not_racing s
+  refine ⟨?_, by simp [h2], by simp [h1], by simp [h1]⟩
+  unfold MLoopSt.serveFirst
+  split
+  · exact delWakeups_unique _ h.uniq _
+  · exact h.uniq
+
+theorem LoopBase.choose {s : MLoopSt} (h : LoopBase s) : LoopBase s.choose := by
+  unfold MLoopSt.choose
   split
   · rename_i cs w hf
-    refine ⟨h.uniq, ?_, ?_⟩
+    refine ⟨h.uniq, ?_, ?_, ?_⟩
     · intro c hc
-      simp only [LoopPc.chosen] at hc
+      simp only [MLoopPc.chosen] at hc
       have := ((firstWakeups_spec' _ h.uniq cs w hf).1 c).mp hc
       simp [this]
     · intro _ h'; simp at h'
-  · exact ⟨h.uniq, by simp [LoopPc.chosen], by simp [LoopPc.isRacing]⟩
+    · intro _; exact ne_nil_of_firstWakeups_some hf
+  · exact ⟨h.uniq, by simp [MLoopPc.chosen], by simp [MLoopPc.isRacing],
+      by simp [MLoopPc.isRacing]⟩
 
-theorem LoopBase.step {fixed : Bool} {s s' : LoopSt} {a : LoopAct} (h : LoopBase s)
+theorem LoopBase.step {fixed : Bool} {s s' : MLoopSt} {a : MLoopAct} (h : LoopBase s)
     (hs : s.step fixed a = some s') : LoopBase s' := by
-  obtain ⟨hu, hsv, hob⟩ := h
+  obtain ⟨hu, hsv, hob, hrw⟩ := h
   cases a with
   | addWakeup c t =>
-    simp only [LoopSt.step] at hs
+    simp only [MLoopSt.step] at hs
     split at hs
     · simp at hs
     · simp only [Option.some.injEq] at hs
       subst hs
       exact ⟨addWakeup_unique _ hu c t, fun c' hc' => addWakeup_isSome _ c c' t (hsv c' hc'),
-        fun _ _ => rfl⟩
+        fun _ _ => rfl, fun _ => addWakeup_ne_nil _ c t⟩
   | newTaskRuns =>
-    simp only [LoopSt.step] at hs
+    simp only [MLoopSt.step] at hs
     split at hs
     · rename_i hc
       simp only [Bool.and_eq_true] at hc
       simp only [Option.some.injEq] at hs
       subst hs
-      exact ⟨hu, hsv, fun _ _ => hc.2⟩
+      exact ⟨hu, hsv, fun _ _ => hc.2, hrw⟩
     · simp at hs
   | sleepExpires =>
-    simp only [LoopSt.step] at hs
+    simp only [MLoopSt.step] at hs
     split at hs
     · rename_i cs w hpc
       simp only [Option.some.injEq] at hs
       subst hs
-      refine ⟨hu, ?_, ?_⟩
-      · simpa [hpc, LoopPc.chosen] using hsv
-      · simpa [hpc, LoopPc.isRacing] using hob
+      refine ⟨hu, ?_, ?_, ?_⟩
+      · simpa [hpc, MLoopPc.chosen] using hsv
+      · simpa [hpc, MLoopPc.isRacing] using hob
+      · simpa [hpc, MLoopPc.isRacing] using hrw
     · simp at hs
   | step =>
-    simp only [LoopSt.step] at hs
+    simp only [MLoopSt.step] at hs
     split at hs
     · -- top
       split at hs
       · simp only [Option.some.injEq] at hs
         subst hs
-        cases fixed <;> exact ⟨hu, by simp [LoopPc.chosen], by simp [LoopPc.isRacing]⟩
+        cases fixed <;> exact ⟨hu, by simp [MLoopPc.chosen], by simp [MLoopPc.isRacing], by simp [MLoopPc.isRacing]⟩
       · simp only [Option.some.injEq] at hs
         subst hs
-        exact LoopBase.choose ⟨hu, hsv, hob⟩
+        exact LoopBase.choose ⟨hu, hsv, hob, hrw⟩
     · -- waiting
       split at hs
       · simp only [Option.some.injEq] at hs
         subst hs
         cases fixed
-        · exact LoopBase.choose ⟨hu, hsv, hob⟩
-        · exact ⟨hu, by simp [LoopPc.chosen], by simp [LoopPc.isRacing]⟩
+        · exact LoopBase.choose ⟨hu, hsv, hob, hrw⟩
+        · exact ⟨hu, by simp [MLoopPc.chosen], by simp [MLoopPc.isRacing], by simp [MLoopPc.isRacing]⟩
       · simp at hs
     · -- sleeping
       split at hs
       · simp only [Option.some.injEq] at hs
         subst hs
-        exact ⟨hu, by simp [LoopPc.chosen], by simp [LoopPc.isRacing]⟩
+        exact ⟨hu, by simp [MLoopPc.chosen], by simp [MLoopPc.isRacing], by simp [MLoopPc.isRacing]⟩
       · simp at hs
     · -- sleptNotResumed
       split at hs
       · simp only [Option.some.injEq] at hs
         subst hs
-        exact ⟨hu, by simp [LoopPc.chosen], by simp [LoopPc.isRacing]⟩
+        exact ⟨hu, by simp [MLoopPc.chosen], by simp [MLoopPc.isRacing], by simp [MLoopPc.isRacing]⟩
       · simp only [Option.some.injEq] at hs
         subst hs
-        exact ⟨delWakeups_unique _ hu _, by simp [LoopPc.chosen], by simp [LoopPc.isRacing]⟩
+        cases fixed
+        · exact ⟨delWakeups_unique _ hu _, by simp [MLoopPc.chosen], by simp [MLoopPc.isRacing],
+            by simp [MLoopPc.isRacing]⟩
+        · exact LoopBase.serveFirst ⟨hu, hsv, hob, hrw⟩
     · -- ticking
       simp only [Option.some.injEq] at hs
       subst hs
-      exact ⟨hu, by simp [LoopPc.chosen], by simp [LoopPc.isRacing]⟩
+      exact ⟨hu, by simp [MLoopPc.chosen], by simp [MLoopPc.isRacing], by simp [MLoopPc.isRacing]⟩
     · simp at hs
 
-theorem LoopBase.run {fixed : Bool} {s : LoopSt} (h : LoopBase s) (acts : List LoopAct) :
+theorem LoopBase.run {fixed : Bool} {s : MLoopSt} (h : LoopBase s) (acts : List MLoopAct) :
     LoopBase (s.run fixed acts) := by
   induction acts generalizing s with
   | nil => exact h
   | cons a as ih =>
-    simp only [LoopSt.run]
+    simp only [MLoopSt.run]
     split
     · rename_i s' hs; exact ih (h.step hs)
     · exact ih h
 
 /-- the invariant of the REPAIRED loop. -/
-structure LoopInv (s : LoopSt) : Prop where
+structure LoopInv (s : MLoopSt) : Prop where
   base : LoopBase s
   /-- the assertion has not failed -/
   alive : s.pc ≠ .dead
@@ -136,38 +181,38 @@ structure LoopInv (s : LoopSt) : Prop where
 theorem LoopInv.init : LoopInv {} :=
   ⟨LoopBase.init, by simp, by simp⟩
 
-theorem choose_pc_of_ne_nil (s : LoopSt) (h : s.wake ≠ []) :
+theorem choose_pc_of_ne_nil (s : MLoopSt) (h : s.wake ≠ []) :
     ∃ cs w, s.choose.pc = .sleeping cs w := by
-  unfold LoopSt.choose
+  unfold MLoopSt.choose
   split
   · rename_i cs w _; exact ⟨cs, w, rfl⟩
   · rename_i x hf
     have : (firstWakeups s.wake).2 = none := by rw [hf]
     exact absurd ((firstWakeups_none _).mp this) h
 
-theorem LoopInv.step {s s' : LoopSt} {a : LoopAct} (h : LoopInv s)
+theorem LoopInv.step {s s' : MLoopSt} {a : MLoopAct} (h : LoopInv s)
     (hs : s.step true a = some s') : LoopInv s' := by
   refine ⟨h.base.step hs, ?_, ?_⟩
   · -- alive
     have hal := h.alive
     cases a with
     | addWakeup c t =>
-      simp only [LoopSt.step] at hs
+      simp only [MLoopSt.step] at hs
       split at hs
       · simp at hs
       · simp only [Option.some.injEq] at hs; subst hs; exact hal
     | newTaskRuns =>
-      simp only [LoopSt.step] at hs
+      simp only [MLoopSt.step] at hs
       split at hs
       · simp only [Option.some.injEq] at hs; subst hs; exact hal
       · simp at hs
     | sleepExpires =>
-      simp only [LoopSt.step] at hs
+      simp only [MLoopSt.step] at hs
       split at hs
       · simp only [Option.some.injEq] at hs; subst hs; simp
       · simp at hs
     | step =>
-      simp only [LoopSt.step] at hs
+      simp only [MLoopSt.step] at hs
       split at hs
       · split at hs
         · simp only [Option.some.injEq] at hs; subst hs; simp
@@ -181,33 +226,37 @@ theorem LoopInv.step {s s' : LoopSt} {a : LoopAct} (h : LoopInv s)
       · split at hs
         · simp only [Option.some.injEq] at hs; subst hs; simp
         · simp at hs
-      · split at hs
+      · rename_i cs w hpc
+        split at hs
         · simp only [Option.some.injEq] at hs; subst hs; simp
-        · simp only [Option.some.injEq] at hs; subst hs; simp
+        · simp only [Option.some.injEq] at hs; subst hs
+          obtain ⟨cs', w', _, he⟩ :=
+            serveFirst_of_ne_nil s (h.base.racingWork (by simp [hpc, MLoopPc.isRacing]))
+          simp [he]
       · simp only [Option.some.injEq] at hs; subst hs; simp
       · simp at hs
   · -- waitIff
     have hw := h.waitIff
     cases a with
     | addWakeup c t =>
-      simp only [LoopSt.step] at hs
+      simp only [MLoopSt.step] at hs
       split at hs
       · simp at hs
       · simp only [Option.some.injEq] at hs; subst hs
         intro _
         simp [addWakeup_ne_nil]
     | newTaskRuns =>
-      simp only [LoopSt.step] at hs
+      simp only [MLoopSt.step] at hs
       split at hs
       · simp only [Option.some.injEq] at hs; subst hs; exact hw
       · simp at hs
     | sleepExpires =>
-      simp only [LoopSt.step] at hs
+      simp only [MLoopSt.step] at hs
       split at hs
       · simp only [Option.some.injEq] at hs; subst hs; simp
       · simp at hs
     | step =>
-      simp only [LoopSt.step] at hs
+      simp only [MLoopSt.step] at hs
       split at hs
       · split at hs
         · rename_i he
@@ -222,18 +271,22 @@ theorem LoopInv.step {s s' : LoopSt} {a : LoopAct} (h : LoopInv s)
       · split at hs
         · simp only [Option.some.injEq] at hs; subst hs; simp
         · simp at hs
-      · split at hs
+      · rename_i cs w hpc
+        split at hs
         · simp only [Option.some.injEq] at hs; subst hs; simp
-        · simp only [Option.some.injEq] at hs; subst hs; simp
+        · simp only [Option.some.injEq] at hs; subst hs
+          obtain ⟨cs', w', _, he⟩ :=
+            serveFirst_of_ne_nil s (h.base.racingWork (by simp [hpc, MLoopPc.isRacing]))
+          simp [he]
       · simp only [Option.some.injEq] at hs; subst hs; simp
       · simp at hs
 
-theorem LoopInv.run {s : LoopSt} (h : LoopInv s) (acts : List LoopAct) :
+theorem LoopInv.run {s : MLoopSt} (h : LoopInv s) (acts : List MLoopAct) :
     LoopInv (s.run true acts) := by
   induction acts generalizing s with
   | nil => exact h
   | cons a as ih =>
-    simp only [LoopSt.run]
+    simp only [MLoopSt.run]
     split
     · rename_i s' hs; exact ih (h.step hs)
     · exact ih h
